@@ -1,7 +1,7 @@
 (* Run.v — command dispatcher: one S-expression in, one S-expression out.
    This is what the OCaml driver calls; each command evaluates model functions on a case that the
    Python harness also runs on the rebuilt implementation. *)
-From OptreeModel Require Export Wire Flatten Unflatten Spec Ops.
+From OptreeModel Require Export Wire Flatten Unflatten Spec Ops Registry.
 
 Definition bad : sexp := SL [SI 2].   (* undecodable input: a harness error, never a verdict *)
 
@@ -116,6 +116,73 @@ Definition cmd_transpose (c : cfg) (oo oi t : obj) : sexp :=
   | _, _ => SL [SI 5]
   end.
 
+(* ---------- cmd 7: registry histories ---------- *)
+Definition dec_rclass (tag n : Z) : rclass :=
+  if Z.eqb tag 0 then RPlain n else if Z.eqb tag 1 then RNamed n else if Z.eqb tag 2 then RStruct n
+  else if Z.eqb tag 3 then RBuiltin n else RNonClass.
+Definition dec_nsarg (tag n : Z) : nsarg :=
+  if Z.eqb tag 0 then NGlobal else if Z.eqb tag 1 then NName n else if Z.eqb tag 2 then NEmpty else NNotString.
+Definition dec_op (s : sexp) : option op :=
+  match s with
+  | SL [SI 0; SI ct; SI cn; SI nt; SI nn; SI pet] =>
+    Some (ORegister (dec_rclass ct cn) (dec_nsarg nt nn) (negb (Z.eqb pet 0)))
+  | SL [SI 1; SI ct; SI cn; SI nt; SI nn] => Some (OUnregister (dec_rclass ct cn) (dec_nsarg nt nn))
+  | _ => None
+  end.
+
+Definition probe_classes : list rclass := [RPlain 0; RPlain 1; RNamed 0; RStruct 0].
+Definition probe_namespaces : list Z := [0; 1; 2].
+
+Definition rid_of (o : option reg) : Z := match o with Some r => rid r | None => 0 end.
+
+Definition observe_registry (s : rstate) : sexp :=
+  SL (flat_map (fun c =>
+        map (fun n =>
+               SL [SI (rid_of (engine_lookup s n c)); SI (rid_of (python_lookup s n c));
+                   SI (rid_of (find_reg (rclass_code c) n (python_all s n)
+                                 (* entries of get(namespace=n) are keyed by class: an entry with this
+                                    class in namespace n, else the global one *)
+                               ));
+                   SI (match find_reg (rclass_code c) n (python_all s n) with
+                       | Some _ => 0
+                       | None => rid_of (find_reg (rclass_code c) 0 (python_all s n))
+                       end)])
+            probe_namespaces) probe_classes).
+
+Definition enc_outcome (o : outcome) : sexp :=
+  match o with OutOk => SL [SI 0] | OutErr e => enc_err e end.
+
+Fixpoint run_history (s : rstate) (ops : list op) : list sexp :=
+  match ops with
+  | [] => []
+  | o :: ops' =>
+    let '(s', out) := step s o in
+    SL [enc_outcome out; observe_registry s'] :: run_history s' ops'
+  end.
+
+(* ---------- cmd 8: dict-order mode programs ---------- *)
+Fixpoint dec_mprog (fuel : nat) (s : sexp) : option mprog :=
+  match fuel with
+  | O => None
+  | S fuel' =>
+    match s with
+    | SL [SI 0] => Some MObserve
+    | SL (SI 1 :: SI mode :: SI n :: SI raises :: body) =>
+      omap (fun b => MWith (negb (Z.eqb mode 0)) n b (negb (Z.eqb raises 0))) (omapM (dec_mprog fuel') body)
+    | _ => None
+    end
+  end.
+
+Definition enc_mstate (s : mstate) : sexp :=
+  SL (map (fun n => enc_bool (mode_get s n)) probe_namespaces ++
+      map (fun n => enc_bool (mode_effective s n)) probe_namespaces).
+
+Definition cmd_mode (progs : list mprog) : sexp :=
+  (* a sequence of top-level statements; an exception escaping one of them is caught at top level *)
+  let '(final, obs) :=
+    fold_left (fun '(st, acc) p => let '(st', o, _) := mrun st p in (st', acc ++ o)) progs ([], []) in
+  SL [enc_mstate final; SL (map enc_mstate obs)].
+
 Definition run (s : sexp) : sexp :=
   match s with
   | SL [SI 1; c; o] =>
@@ -147,6 +214,16 @@ Definition run (s : sexp) : sexp :=
     match dec_cfg c, dec_obj oo, dec_obj oi, dec_obj t with
     | Some c', Some a, Some b, Some t' => cmd_transpose c' a b t'
     | _, _, _, _ => bad
+    end
+  | SL [SI 7; SI we; SL ops] =>
+    match omapM dec_op ops with
+    | Some ops' => SL (run_history (init_state (negb (Z.eqb we 0))) ops')
+    | None => bad
+    end
+  | SL [SI 8; SL progs] =>
+    match omapM (dec_mprog 64) progs with
+    | Some ps => cmd_mode ps
+    | None => bad
     end
   | _ => bad
   end.
